@@ -27,17 +27,34 @@ class XTr(c2c.Tr):
     def __init__(self, T): super().__init__(64, {}, {}); self.T = T
     def read_lvalue(self, e):
         s = strip(e)
-        if s.get("kind") == "DeclRefExpr": return "(%s s)" % self.T.field(s["referencedDecl"]["name"])
+        if s.get("kind") == "DeclRefExpr":
+            nm = s["referencedDecl"]["name"]
+            if nm in self.T.consts: return str(self.T.consts[nm])
+            return "(%s s)" % self.T.field(nm)
         raise Unsupported("lvalue " + s.get("kind", "?"))
     def expr(self, e, k):
         if e["kind"] == "DeclRefExpr": return k(self.read_lvalue(e))
         if e["kind"] in ("ImplicitCastExpr", "CStyleCastExpr") and e.get("castKind") == "LValueToRValue": return k(self.read_lvalue(e["inner"][0]))
         if e["kind"] == "UnaryOperator" and e.get("opcode") == "-" and strip(e["inner"][0]).get("kind") == "IntegerLiteral": return k("(- %s)" % strip(e["inner"][0])["value"])
+        if e["kind"] == "CXXBoolLiteralExpr": return k("1" if e.get("value") else "0")
         return super().expr(e, k)
 
 class OsTr:
-    def __init__(self): self.vars = []; self.ptrs = []; self.tr = XTr(self); self.uses_fuel = False
+    def __init__(self, objs=None):
+        self.vars = []; self.ptrs = []; self.arrays = []; self.guards = []; self.consts = {}; self.world = [("w_os", "list ev"), ("w_sleeps", "Z")]
+        self.tr = XTr(self); self.uses_fuel = False; self.objs = objs or []; self.uses_stream = False
+    def array(self, name):
+        if name not in self.arrays: self.arrays.append(name)
+        return "a_" + name
+    def find_fn(self, name):
+        for o in self.objs:
+            for n in walk(o):
+                if n.get("kind") == "FunctionDecl" and n.get("name") == name and any(c.get("kind") == "CompoundStmt" for c in n.get("inner", [])): return n
+        return None
+    def is_array(self, n):
+        q = n.get("type", {}).get("qualType", ""); return q.rstrip().endswith("]")
     def field(self, name):
+        if name in self.consts: return None
         if name in self.ptrs: raise Unsupported("pointer %s used as a value" % name)
         if name not in self.vars: self.vars.append(name)
         return "v_" + name
@@ -45,7 +62,9 @@ class OsTr:
         fs = []
         for v in self.vars: fs.append(("v_" + v, "Z"))
         for p in self.ptrs: fs += [("b_" + p, "list Z"), ("o_" + p, "Z")]
-        return fs + [("w_os", "list ev"), ("w_sleeps", "Z")]
+        for a in self.arrays: fs.append(("a_" + a, "list Z"))
+        for g in self.guards: fs.append(("g_" + g, "Z"))
+        return fs + self.world
     def pure(self, e):
         t = self.tr.expr(e, lambda x: x)
         if "bind" in t: raise Unsupported("expression with a side condition where a pure one is needed")
@@ -66,10 +85,25 @@ class OsTr:
             return r
         if k == "NullStmt": return "sskip"
         if k == "DeclStmt":
+            out = []
             for d in s.get("inner", []):
-                if d["kind"] != "VarDecl" or d.get("inner"): raise Unsupported("declaration with an initialiser")
-                self.field(d["name"])
-            return "sskip"                      # an uninitialised local: its field keeps whatever value it had
+                if d["kind"] != "VarDecl": raise Unsupported("declaration " + d["kind"])
+                if self.is_array(d):
+                    if d.get("inner"): raise Unsupported("array with an initialiser")
+                    self.array(d["name"]); continue          # an uninitialised local array: its field keeps whatever it held
+                if not d.get("inner"): self.field(d["name"]); continue      # an uninitialised local
+                init = {"kind": "BinaryOperator", "opcode": "=", "inner": [{"kind": "DeclRefExpr", "referencedDecl": {"name": d["name"]}, "type": d["type"]}, d["inner"][-1]]}
+                code = self.stmt(init)
+                if d.get("storageClass") == "static":
+                    # a function-local static: initialised by the first execution that reaches it (C++11 guarantees exactly once)
+                    if d["name"] not in self.guards: self.guards.append(d["name"])
+                    code = "(sif (fun s => (g_%s s) =? 0) (sseq %s (sassign (fun s => Some (set_g_%s s 1)))))" % (d["name"], code, d["name"])
+                out.append(code)
+            if not out: return "sskip"
+            r = out[-1]
+            for x in reversed(out[:-1]): r = "(sseq %s %s)" % (x, r)
+            return r
+        if k == "CStyleCastExpr" and s.get("castKind") == "ToVoid": return "sskip"
         if k == "BreakStmt": return "sbreak"
         if k == "ContinueStmt": return "scontinue"
         if k == "IfStmt":
@@ -77,15 +111,39 @@ class OsTr:
             return "(sif (fun s => %s) %s)" % (self.pure(s["inner"][0]), self.stmt(s["inner"][1]))
         if k == "ForStmt":
             init, _, cond, inc, body = s["inner"]
-            if init.get("kind") or cond.get("kind") or inc.get("kind"): raise Unsupported("for loop other than for (;;)")
-            self.uses_fuel = True; return "(sloop fuel %s)" % self.stmt(body)
+            if not (init.get("kind") or cond.get("kind") or inc.get("kind")):
+                self.uses_fuel = True; return "(sloop fuel %s)" % self.stmt(body)
+            # for (init; cond; inc) body  ==  init; while (cond) { body; inc }   (no `continue` in the body, which would skip inc here)
+            if any(n.get("kind") == "ContinueStmt" for n in walk(body)): raise Unsupported("continue inside a counted for loop")
+            if not (init.get("kind") and cond.get("kind") and inc.get("kind")): raise Unsupported("for loop with a missing clause")
+            self.uses_fuel = True
+            return "(sseq %s (swhile fuel (fun s => %s) (sseq %s %s)))" % (self.stmt(init), self.pure(cond), self.stmt(body), self.stmt(inc))
+        if k == "UnaryOperator" and s.get("opcode") == "++":
+            l = strip(s["inner"][0]); name = l["referencedDecl"]["name"]; ty = ctype(l); f = self.field(name)
+            return "(sassign (fun s => %s))" % self.tr.arith(ty, "((%s s) + 1)" % f, lambda r: "Some (set_%s s %s)" % (f, r), "+")
         if k == "WhileStmt":
             self.uses_fuel = True; return "(swhile fuel (fun s => %s) %s)" % (self.pure(s["inner"][-2]), self.stmt(s["inner"][-1]))
         if k == "CallExpr":
-            if callee(s) == "sleep": return "(sassign (fun s => Some (set_w_sleeps s (w_sleeps s + 1))))"
-            raise Unsupported("call of " + str(callee(s)))
+            fn = callee(s)
+            if fn == "sleep": return "(sassign (fun s => Some (set_w_sleeps s (w_sleeps s + 1))))"
+            if fn == "randombytes":
+                # nfl::randombytes(buf, n): the key source, an oracle here (its own behaviour is C19): the next n bytes of the key tape
+                an = strip(s["inner"][1])["referencedDecl"]["name"]; cnt = self.pure(s["inner"][2])
+                if ("w_keytape", "list Z") not in self.world: self.world.append(("w_keytape", "list Z"))
+                return "(sassign (fun s => bind (rb_fill (%s s) %s (w_keytape s)) (fun '(nb, rest) => Some (set_w_keytape (set_%s s nb) rest))))" % (self.array(an), cnt, self.array(an))
+            if fn and "crypto_stream" in fn:
+                # the keystream routine (assembly): an oracle -- `stream key nonce len`, written at r[0 .. len)
+                a = s["inner"][1:]; pn = strip(a[0])["referencedDecl"]["name"]; ln = self.pure(a[1]); nn = strip(a[2])["referencedDecl"]["name"]; kn = strip(a[3])["referencedDecl"]["name"]
+                if pn not in self.ptrs: raise Unsupported("stream into " + pn)
+                self.uses_stream = True
+                return "(sassign (fun s => bind (stream_write stream (b_%s s) (o_%s s) %s (%s s) (%s s)) (fun nb => Some (set_b_%s s nb))))" % (pn, pn, ln, self.array(nn), self.array(kn), pn)
+            raise Unsupported("call of " + str(fn))
         if k == "BinaryOperator" and s.get("opcode") == "=":
             l = strip(s["inner"][0]); r = s["inner"][1]; rc = strip(r)
+            if l.get("kind") == "ArraySubscriptExpr":
+                # a[idx] = e on a fixed-size array: bounds-checked store
+                an = strip(l["inner"][0])["referencedDecl"]["name"]; af = self.array(an); idx = self.pure(l["inner"][1])
+                return "(sassign (fun s => %s))" % self.tr.expr(r, lambda t: "bind (MemSem.st (%s s) %s %s) (fun na => Some (set_%s s na))" % (af, idx, t, af))
             if l.get("kind") != "DeclRefExpr" or is_ptr(l): raise Unsupported("assignment target")
             name = l["referencedDecl"]["name"]
             if rc.get("kind") == "CallExpr":
@@ -100,7 +158,18 @@ class OsTr:
                     conv = self.tr.conv(dst, ctype(rc), "r")
                     return ("(sassign (fun s => bind (os_read (w_os s) %s) (fun '(r, bs, rest) => bind (store_bytes (b_%s s) (o_%s s) bs) (fun nb => "
                             "if %s =? (-1) then None else Some (set_w_os (set_b_%s (set_%s s %s) nb) rest)))))" % (cnt, pn, pn, fdt, pn, f, conv))
+                tgt = self.find_fn(fn)
+                if tgt is not None and not [c for c in tgt["inner"] if c["kind"] == "ParmVarDecl"]:
+                    # a function of this translation unit without parameters: its body, then the returned value
+                    items = [c for c in tgt["inner"] if c["kind"] == "CompoundStmt"][0].get("inner", []) or []
+                    if not items or items[-1]["kind"] != "ReturnStmt" or any(n.get("kind") == "ReturnStmt" for it in items[:-1] for n in walk(it)): raise Unsupported("shape of " + fn)
+                    pre = self.stmt({"kind": "CompoundStmt", "inner": items[:-1]})
+                    return "(sseq %s %s)" % (pre, self.assign_scalar(name, items[-1]["inner"][0]))
                 raise Unsupported("call of " + str(fn))
+            if rc.get("kind") == "CXXMemberCallExpr" and any(n.get("kind") == "MemberExpr" and n.get("name") == "fetch_add" for n in walk(rc["inner"][0])):
+                # x = counter.fetch_add(d) on std::atomic<unsigned long long>: the old value; the counter wraps at 64 bits (atomicity: C18)
+                cn = [n for n in walk(rc["inner"][0]) if n.get("kind") == "DeclRefExpr"][0]["referencedDecl"]["name"]; cf = self.field(cn); f = self.field(name); d_ = self.pure(rc["inner"][1])
+                return "(sassign (fun s => Some (set_%s (set_%s s (%s s)) (uw 64 ((%s s) + %s)))))" % (cf, f, cf, cf, d_)
             return self.assign_scalar(name, r)
         if k == "CompoundAssignOperator":
             l = strip(s["inner"][0]); name = l["referencedDecl"]["name"]; op = s["opcode"][:-1]
@@ -111,10 +180,19 @@ class OsTr:
             return "(sassign (fun s => %s))" % self.tr.expr(s["inner"][1], lambda t: self.tr.arith(ty, self.tr.binop(op, "(%s s)" % f, t), lambda r: "Some (set_%s s %s)" % (f, r), op))
         raise Unsupported("statement " + k)
 
+def emit(T, code, recname, fname, comment, extra_params=""):
+    fs = T.fields(); body = []
+    body.append("Record %s := mk { %s }." % (recname, "; ".join("%s : %s" % f for f in fs)))
+    for i, (f, t) in enumerate(fs):
+        body.append("Definition set_%s (s : %s) (v : %s) : %s := mk %s." % (f, recname, t, recname, " ".join("v" if j == i else "(%s s)" % g for j, (g, _) in enumerate(fs))))
+    body.append(""); body.append(comment)
+    body.append("Definition %s %s%s: stmt %s :=\n  %s." % (fname, extra_params, "(fuel : nat) " if T.uses_fuel else "", recname, code))
+    return body
+
 def main():
     OUT = sys.argv[2]
-    hdr = ["(* GENERATED by tools/cxxos2coq.py from lib/prng/randombytes.cpp on every run -- do not edit. *)",
-           "From Coq Require Import ZArith Bool List.", "From NTT Require Import CxxSem OsSem.", "Import ListNotations.", "Local Open Scope Z_scope.", ""]
+    hdr = ["(* GENERATED by tools/cxxos2coq.py from lib/prng/randombytes.cpp and lib/prng/fastrandombytes.cpp on every run -- do not edit. *)",
+           "From Coq Require Import ZArith Bool List.", "From NTT Require Import CxxSem MemSem OsSem.", "Import ListNotations.", "Local Open Scope Z_scope.", ""]
     body = []; status = "ok"
     try:
         objs = c2c.clang_ast('#include "%s/lib/prng/randombytes.cpp"\n' % REPO, "randombytes", ["-I%s/include/nfl/prng" % REPO])
@@ -125,18 +203,32 @@ def main():
             if is_ptr(pv): T.ptrs.append(pv["name"])
             else: T.field(pv["name"])
         code = T.stmt([c for c in fn["inner"] if c["kind"] == "CompoundStmt"][0])
-        fs = T.fields()
-        body.append("Record st := mk { %s }." % "; ".join("%s : %s" % f for f in fs))
-        for i, (f, t) in enumerate(fs):
-            body.append("Definition set_%s (s : st) (v : %s) : st := mk %s." % (f, t, " ".join("v" if j == i else "(%s s)" % g for j, (g, _) in enumerate(fs))))
-        body.append("")
-        body.append("(* void nfl::randombytes(unsigned char *x, unsigned long long xlen); `fd` is the namespace-scope static *)")
-        body.append("Definition gen_randombytes %s: stmt st :=\n  %s." % ("(fuel : nat) " if T.uses_fuel else "", code))
+        body += emit(T, code, "st", "gen_randombytes", "(* void nfl::randombytes(unsigned char *x, unsigned long long xlen); `fd` is the namespace-scope static *)")
     except Unsupported as ex:
         status = "unsupported: %s" % ex; body = []
-    body.append("(* index: gen_randombytes [%s] *)" % status)
+    # fastrandombytes.cpp: the generator (sequential meaning of one request; atomicity of the counter and of the one-time seeding is C18)
+    status2 = "ok"; body2 = []
+    try:
+        objs = c2c.clang_ast('#include "%s/lib/prng/fastrandombytes.cpp"\n' % REPO, "nfl", ["-I%s/include" % REPO, "-I%s/include/nfl/prng" % REPO])
+        T = OsTr(objs); T.world = []
+        for o in objs:
+            for n in walk(o):
+                if n.get("kind") == "VarDecl" and n.get("storageClass") == "static" and "const" in n.get("type", {}).get("qualType", "") and n.get("inner") and strip(n["inner"][-1]).get("kind") == "IntegerLiteral":
+                    T.consts[n["name"]] = int(strip(n["inner"][-1])["value"])
+        fn = T.find_fn("fastrandombytes")
+        if fn is None: raise Unsupported("definition of fastrandombytes not found")
+        for pv in [c for c in fn["inner"] if c["kind"] == "ParmVarDecl"]:
+            if is_ptr(pv): T.ptrs.append(pv["name"])
+            else: T.field(pv["name"])
+        code = T.stmt([c for c in fn["inner"] if c["kind"] == "CompoundStmt"][0])
+        body2 = ["", "Module Frb."] + emit(T, code, "st", "gen_fastrandombytes", "(* void nfl::fastrandombytes(unsigned char *r, unsigned long long rlen); key, nonce_counter: namespace-scope statics; seeded: function-local static *)",
+                                          "(stream : list Z -> list Z -> nat -> list Z) " if T.uses_stream else "") + ["End Frb."]
+    except Unsupported as ex:
+        status2 = "unsupported: %s" % ex; body2 = []
+    body += body2
+    body.append("(* index: gen_randombytes [%s]; gen_fastrandombytes [%s] *)" % (status, status2))
     open(OUT, "w").write("\n".join(hdr + body) + "\n")
-    print("gen_randombytes", status, file=sys.stderr)
+    print("gen_randombytes", status, "; gen_fastrandombytes", status2, file=sys.stderr)
 
 if __name__ == "__main__":
     main()
